@@ -3,7 +3,7 @@
 From Coq Require Import List NArith ZArith String.
 From GV Require Import Base.Ints Gen.Mappers Monitors.C09m Proofs.Mappers.
 From GV Require Import Model.OptTypes Model.Options Gen.Options Proofs.Options.
-From GV Require Import Model.Registry Gen.Registry Proofs.Registry.
+From GV Require Import Model.Registry Gen.RegistryC09 Proofs.Registry.
 Import ListNotations.
 Local Open Scope N_scope.
 
